@@ -62,7 +62,7 @@ def cases(tier, seed):
         for cls_name in ("GreedyEval", "AugmentationEval", "SamplingEval", "GreedyMultiStartEval", "GreedyMultiStartAugmentEval"):
             for r in range(1 if q else 3):
                 out.append(dict(kind="evaluator_reuse", env=env, n=rnd.choice([6, 8]), evaluator=cls_name, sizes=[rnd.choice([5, 6]), rnd.choice([3, 4]), 2], bs=rnd.choice([2, 3, 8]), A=rnd.choice([2, 4]), s=rnd.randrange(10**6)))
-    for model, grid in (("pomo", ((3, 8), (5, 8), (4, 1))), ("symnco", ((0, 4), (4, 4), (3, 2), (5, 2), (6, 1), (4, 0)))):
+    for model, grid in (("pomo", ((3, 8), (5, 8), (4, 1), (3, 0), (5, 0))), ("symnco", ((0, 4), (4, 4), (3, 2), (5, 2), (6, 1), (4, 0)))):
         for (S, A) in grid:
             for env in ("tsp", "cvrp"):
                 for B in ((2, 5) if q else (1, 2, 3, 5)):
